@@ -187,7 +187,7 @@ func pruneModel(n *model.Node) *model.Node {
 }
 
 type leftover struct {
-	path              string
+	path                 string
 	inEntry, inOrd, inUL bool
 }
 
@@ -320,6 +320,47 @@ func TestC14(t *testing.T) {
 			o.NoOrdered = true
 		}
 		m := model.GenTree(rt, v, o)
+		// one tree in three is thinned out at one node: a container or list entry keeps a single leaf (plus its
+		// key leaves), so that whether the node counts as populated hangs on that one leaf, whatever its kind
+		thinned := ""
+		if rapid.IntRange(0, 2).Draw(rt, "thin") == 0 {
+			sites := model.Sites(m)
+			if len(sites) > 1 {
+				sn := sites[rapid.IntRange(1, len(sites)-1).Draw(rt, "thinsite")].N
+				var leaves []string
+				for _, f := range sn.SI.Fields {
+					if _, ok := sn.Leaf[f.Name]; ok && f.Kind == model.FLeaf && !f.IsKey && f.Type != nil && f.Type.Leafref == "" {
+						leaves = append(leaves, f.Name)
+					}
+				}
+				if len(leaves) > 0 {
+					// first a value kind (so that rare kinds such as empty or binary get their share), then a leaf of it
+					byKind := map[string][]string{}
+					var kinds []string
+					for _, l := range leaves {
+						k := sn.Leaf[l].K.String()
+						if len(byKind[k]) == 0 {
+							kinds = append(kinds, k)
+						}
+						byKind[k] = append(byKind[k], l)
+					}
+					sort.Strings(kinds)
+					leaves = byKind[kinds[rapid.IntRange(0, len(kinds)-1).Draw(rt, "thinkind")]]
+					keep := leaves[rapid.IntRange(0, len(leaves)-1).Draw(rt, "thinkeep")]
+					for _, f := range sn.SI.Fields {
+						if f.IsKey || f.Name == keep {
+							continue
+						}
+						delete(sn.Leaf, f.Name)
+						delete(sn.LL, f.Name)
+						delete(sn.Cont, f.Name)
+						delete(sn.List, f.Name)
+						delete(sn.UList, f.Name)
+					}
+					thinned = "thinned:" + sn.Leaf[keep].K.String()
+				}
+			}
+		}
 		gs := model.Build(m)
 		op := rapid.SampledFrom([]string{"bet-root", "bet-sub", "insert", "insert", "insert+bet-sub", "none"}).Draw(rt, "op")
 		var desc []string
@@ -385,6 +426,9 @@ func TestC14(t *testing.T) {
 		emptiesBefore := emptyContainers(before)
 		nt := false
 		classes := append(th.TreeClasses(v, m.Stat()), "op:"+op)
+		if thinned != "" {
+			classes = append(classes, "thinned", thinned)
+		}
 		for _, l := range emptiesBefore {
 			switch {
 			case l.inOrd:
